@@ -16,3 +16,4 @@ def run(pid, tier):
     ctx.ev.assumptions += ["file kinds are realised by one representative document each",
                            "plugin and parser failures are injected by the harness's faulty plugin / parser seam"]
     return ctx
+replay = appcommon.replay
